@@ -1311,6 +1311,7 @@ pub fn add_query_text(m: &Model, id: &Option<String>, target: &Sel, data: &[Data
                 let set = match set {
                     SetRef::Existing(r) => set_id(&scratch, r)?,
                     SetRef::Literal(s) => s.clone(),
+                    SetRef::Unnamed => crate::ops::DEFAULT_SET.to_string(),
                 };
                 if !q_str_ok(&set) || !q_str_ok(key) {
                     return None;
